@@ -12,6 +12,8 @@ asyncio loop (never permuting asyncio's ready queue):
   ["release", t, c]    Connection.release() (c=0) or Connection.close() (c=1) of the connection t holds
   ["close"]            create a task running connector.close()
   ["run"]              run the loop until nothing is ready (quiescence)
+  ["start", t, k, [signals]]  the request carries a TraceConfig; it blocks inside the listed trace callbacks
+                       (reuseconn, queued_start, queued_end, create_start, create_end) until ["open", t]
 Several stimuli between two "run"s land in the same loop iteration, which is how await-granularity
 interleavings (release before a woken waiter resumes, cancel after wake, lost races) are reached.
 Harness-side instrumentation only (Future/Task subclasses, patched shuffle); /repo is not edited.
@@ -34,7 +36,9 @@ RULE = ("histories of stimuli (start/ok/fail/cancel/timeout/release/close/run) o
         "limit and limit_per_host in {0,1,2,3}, force_close on/off, drawn from one PRNG seeded by VERIF_SEED (plus the "
         "corpus and, in the thorough tier, all histories of a small alphabet up to a length bound); every history is "
         "replayed on the real connector, its event log is validated step by step against the extracted model and "
-        "the property oracle is evaluated on the implementation after every event.  Non-trivial = at least one "
+        "the property oracle is evaluated on the implementation after every event; suite pool_traced_oracle adds requests whose "
+        "TraceConfig callbacks (reuseconn, queued_start/end, create_start/end) block on harness gates so that stimuli land at the "
+        "await points inside _get, the wait loop and around _create_connection (implementation + oracle only).  Non-trivial = at least one "
         "request had to wait for a slot; distinct by hash of the logged event sequence and final snapshot.")
 TRUSTED = [
     "translator/gen_pool.py (_available_connections statement translator; capacity comparisons at the three call sites)",
@@ -42,8 +46,9 @@ TRUSTED = [
     "correspondence harness harness/c07.py (Future/Task subclasses that log resumptions and cancels, patched "
     "aiohttp.connector.random.shuffle, in-memory transports): sampled, not proved",
     "modelled, not verified: asyncio task/future scheduling (FIFO ready queue, cancel semantics), asyncio.timeout; "
-    "connection creation (DNS, TLS, proxies) is replaced by a scripted outcome; tracing hooks (traces=[]), keep-alive "
-    "expiry and peer-closed idle connections are outside the model",
+    "connection creation (DNS, TLS, proxies) is replaced by a scripted outcome; the await points opened by tracing hooks are "
+    "outside the MODEL (traces=[] there) but covered by the oracle-only suite pool_traced_oracle; keep-alive expiry and "
+    "peer-closed idle connections are outside both",
 ]
 ASSUMPTIONS = [
     "Each request calls connect() once with traces=[]; connection attempts are scripted (succeed / fail / cancelled).",
@@ -492,10 +497,12 @@ class Sim:
         live = [t for t, p in self.phase.items() if p == "waiting" and not self.cur_fut[t].done()]
         if not c._closed and self.closed_seen is not True:
             tokens = [self.key_of[u] for u in self.woken_set()]     # non-empty only behind trace gates
+            per2 = dict(per)
+            for h in tokens:
+                per2[h] = per2.get(h, 0) + 1
             for t in live:
                 k = self.key_of[t]
-                cap = self.capacity(k, tot + len(tokens), {h: n + tokens.count(h) for h, n in
-                                                           {**{h: 0 for h in tokens}, **per}.items()})
+                cap = self.capacity(k, tot + len(tokens), per2)
                 if cap is None or cap > 0:
                     self.violations.append(({"kind": "lost_wakeup", "step": step, "task": t, "host": k,
                                              "capacity": cap, "lph": self.Lh,
@@ -513,14 +520,14 @@ class Sim:
                 self.violations.append(({"kind": "close_leaves_open", "step": step, "conns": opened},
                                         f"connections {opened} created by the connector are still open after close()"))
             for t in self.waiting_at_close:
-                if self.phase[t] == "waiting" and t not in self.queued_after_close:
+                if self.phase[t] == "waiting" and t not in self.queued_after_close and t not in self.gated:
                     self.violations.append(({"kind": "close_waiter_not_failed", "step": step, "task": t},
                                             f"request {t} was waiting when the connector closed and was not failed"))
 
     def drain(self):
         """Let every request finish: fail pending attempts, release held connections, run; then check
         that nothing is counted as in use and nobody waits."""
-        for _ in range(3 * (len(self.tasks) + 2)):
+        for _ in range(8 * (len(self.tasks) + 2)):
             self.apply(["run"])
             progressed = False
             for t in sorted(self.gated):
@@ -643,7 +650,7 @@ def gen_config(rng):
     return cfg, hk
 
 
-def make_chooser(rng, n, hk, length):
+def make_chooser(rng, n, hk, length, traced=False):
     """State-aware random stimulus chooser: picks among the stimuli enabled in the simulator's
     current (harness-observed) phases."""
     st = {"next": 0, "steps": 0}
@@ -655,7 +662,12 @@ def make_chooser(rng, n, hk, length):
         cands = []
         closing = sim.closed_seen is not False
         if st["next"] < n and not closing:      # a session refuses new requests once closed
-            cands.append((3.0, ["start", st["next"], rng.randrange(hk)]))
+            op = ["start", st["next"], rng.randrange(hk)]
+            if traced and rng.random() < 0.7:
+                op.append(sorted(g for g in Sim.GATES if rng.random() < (0.6 if g == "reuseconn" else 0.3)))
+            cands.append((3.0, op))
+        for t in sim.gated:
+            cands.append((1.6, ["open", t]))
         for t, p in sim.phase.items():
             if p == "creating":
                 f = sim.attempt.get(t)
@@ -667,7 +679,7 @@ def make_chooser(rng, n, hk, length):
                 cands.append((0.7, ["release", t, 1]))
             if p in ("new", "waiting", "creating") and t not in sim.cancel_req:
                 cands.append((0.45, ["cancel", t]))
-                if p != "new":
+                if p != "new" and t in sim.deadline:
                     cands.append((0.15, ["timeout", t]))
         if not closing:
             cands.append((0.12, ["close"]))
@@ -745,30 +757,37 @@ def check_batch(ctx, exe, suite, batch):
     results = []
     for cfg, hk, hist, orders in batch:
         if hist is None:
-            ch = make_chooser(ctx.rng, ctx.rng.choice([2, 3, 3, 4, 4, 5]), hk, ctx.rng.randint(4, 28))
+            ch = make_chooser(ctx.rng, ctx.rng.choice([2, 3, 3, 4, 4, 5]), hk, ctx.rng.randint(4, 28),
+                              traced=(suite == "pool_traced_oracle"))
             res = run_history(cfg, hk, None, rng=ctx.rng, chooser=ch)
         else:
             res = run_history(cfg, hk, hist, orders=orders, rng=(ctx.rng if orders is None else None))
         results.append(res)
-    answers = fw.run_model(exe, [r["line"] for r in results]) if results else []
+    # histories with trace gates have await points the model does not have: property oracle only
+    answers = fw.run_model(exe, [("RUN 0 0 0 1" if r["traced"] else r["line"]) for r in results]) if results else []
     for (cfg, hk, hist, orders), res, ans in zip(batch, results, answers):
         case = {"suite": suite, "cfg": cfg, "hk": hk, "history": res["applied"], "orders": res["orders"]}
         msnaps = ans.split(" | ") if ans else []
         isnaps = res["snapshots"]
         bad = None
+        if res["traced"]:
+            msnaps = isnaps = []
+            ctx.count("traced_histories")
         for i, s in enumerate(isnaps):
             if i >= len(msnaps) or msnaps[i] != s:
                 bad = i
                 break
         if bad is None and len(msnaps) != len(isnaps):
             bad = len(isnaps)
-        ctx.case((res["line"], isnaps[-1] if isnaps else ""), nontrivial=res["ever_waited"])
-        ctx.traces_validated += 1
+        ctx.case((res["line"], repr(res["applied"]) if res["traced"] else (isnaps[-1] if isnaps else "")),
+                 nontrivial=res["ever_waited"])
+        if not res["traced"]:
+            ctx.traces_validated += 1
         for ev in res["events"]:
             ctx.count("event:" + ev[0])
         ctx.count(f"cfg:limit={cfg['limit']},lph={cfg['lph']}")
         ctx.count("events_per_history:" + str(min(40, len(res["events"]) // 5 * 5)))
-        if res["harness_errors"]:
+        if res["harness_errors"] and not res["traced"]:
             ctx.disagreement(suite, case, "event structure of the model", res["harness_errors"][0])
         if bad is not None:
             ctx.disagreement(suite, dict(case, step=bad, event=res["events"][bad] if bad < len(res["events"]) else None),
@@ -850,6 +869,17 @@ def run(ctx):
             batch.append((cfg, hk, None, None))
         ran += check_batch(ctx, exe, "pool_trace", batch)
     ctx.close_suite("pool_trace", ran)
+    # requests with TraceConfig callbacks blocking on harness gates (await points inside _get, the wait loop
+    # and around _create_connection): implementation + property oracle only
+    n = 1500 if ctx.quick else 40000
+    ran = 0
+    while ran < n:
+        batch = []
+        for _ in range(min(chunk, n - ran)):
+            cfg, hk = gen_config(ctx.rng)
+            batch.append((cfg, hk, None, None))
+        ran += check_batch(ctx, exe, "pool_traced_oracle", batch)
+    ctx.close_suite("pool_traced_oracle", ran)
     if not ctx.quick:
         ran = 0
         for cfg in ({"limit": 1, "lph": 0, "force_close": 0}, {"limit": 2, "lph": 1, "force_close": 0},
@@ -870,9 +900,12 @@ def replay(ctx, case):
         return {"violates": None, "note": "formula case: re-run the suite"}
     ok, exe = build_model()
     res = run_history(case["cfg"], case["hk"], case["history"], orders=case.get("orders") or [])
-    ans = fw.run_model(exe, [res["line"]])[0] if ok else ""
-    msnaps = ans.split(" | ")
-    agree = msnaps == res["snapshots"]
+    if res["traced"]:       # trace gates: oracle only
+        msnaps, agree = [], None
+    else:
+        ans = fw.run_model(exe, [res["line"]])[0] if ok else ""
+        msnaps = ans.split(" | ")
+        agree = msnaps == res["snapshots"]
     want = (case.get("violation") or {}).get("kind")
     vs = [{"violation": v, "what": w} for v, w in res["violations"]]
     hit = [x for x in vs if want is None or x["violation"].get("kind") == want]
